@@ -26,5 +26,6 @@ func At(site string)                      {}
 func Done(site string)                    {}
 func Replace(name string, fn interface{}) {}
 func ReportRaces()                         {}
+func ReportHeapRaces()                     {}
 func LiveGoroutines() int                  { return 0 }
 func Ite(c bool, a, b int) int            { if c { return a }; return b }
